@@ -792,7 +792,16 @@ def run_recorded(path: Path, workdir: Path):
     """load a bundled document, save it again, analyse what was written, load that and compare (C01 + C02 observation)."""
     tmp = Path(tempfile.mkdtemp(prefix="aoefr_", dir=str(workdir)))
     try:
-        first = io.load(path)
+        failed, first = outcome_of(lambda: io.load(path))
+        if failed:          # the bundled document no longer loads: an observation (SaveLoadSucceeds decides), not a crash of the binder
+            try:
+                ctype = json.loads(path.read_text())["data"]["collection_type"]
+            except Exception:
+                ctype = "?"
+            rec = {"saved": "", "loaded": failed, "type": "?", "diff": [], "docdiff": [],
+                   "doc": {"defs": {k: [] for k in KINDS}, "refs": [], "parents": []}}
+            return {"src": "bundled:" + path.name, "in": {"ctype": ctype, "objs": [], "sw": ["recorded"], "file": path.name},
+                    "out": {"cycles": [rec]}}
         objs, rev = objs_of(first)
         ctype = next((k for k, c in CTYPE_CLASS.items() if type(first) is c), type(first).__name__)
         cycles, cur, first_doc = [], first, None
